@@ -24,4 +24,4 @@ Extraction "model.ml"
   parse_time text_lines item_text_ssa item_name event_item event_of_item info_parse info_bytes segments
   ttml_time time_simple read_ttml doc_time_simple write_ttml write_ttml_bytes indent_doc format_ttml xml_parse
   read_stl read_faithful write_stl write_faithful encode_text_stl text_faithful decode_bytes open_row stl_ttx_row
-  parse_gsi gsi_faithful gsi_bytes parse_tti tti_bytes new_gsi new_tti eattr0 time_faithful.
+  parse_gsi gsi_faithful gsi_bytes parse_tti tti_bytes new_gsi new_tti sattr0_stl time_faithful.
